@@ -182,3 +182,52 @@ Proof.
   - intros H. apply satb_complete_lemma in H; [vm_compute in H; discriminate | vm_compute; reflexivity].
   - intros t. eexists. vm_compute. reflexivity.
 Qed.
+
+(* Chains of substitutions, any length: ((S % v1) % v2) ... % vn with plain values ends in a
+   schema or in SubstitutionError - never another exception at ANY step, although every step
+   after the first runs on a schema the substitutor itself produced; and when the chain
+   succeeds, substituting its last value once more changes nothing (idempotence at the end of
+   a chain).  Induction over the list of values, [subst_result_wf] carries [wf] along. *)
+Definition chain (s : schema) (vs : list value) : result schema :=
+  fold_left (fun r v => bind r (fun s0 => substitute s0 v)) vs (Ok s).
+
+Lemma chain_failed_stays : forall vs (r : result schema),
+  is_ok r = false -> fold_left (fun r v => bind r (fun s0 => substitute s0 v)) vs r = r.
+Proof.
+  induction vs as [|v vs IH]; intros r Hr; cbn [fold_left]; [reflexivity|].
+  destruct r as [a|k|e]; [discriminate Hr | exact (IH (Err k) eq_refl) | exact (IH (Raise e) eq_refl)].
+Qed.
+
+Theorem subst_chain_only_substerr :
+  forall vs s, wf s = true -> forallb plain vs = true -> forallb vwf vs = true ->
+  clean (chain s vs).
+Proof.
+  unfold chain. induction vs as [|v vs IH]; intros s Hwf Hpl Hvw; cbn [fold_left]; [exact I|].
+  cbn [forallb] in Hpl, Hvw.
+  apply andb_prop in Hpl. destruct Hpl as [Hp1 Hp2].
+  apply andb_prop in Hvw. destruct Hvw as [Hv1 Hv2].
+  cbn [bind]. pose proof (subst_clean_lemma s Hwf v) as Hc.
+  destruct (substitute s v) as [s1|k|e] eqn:E.
+  - exact (IH s1 (subst_wf_lemma s Hwf v s1 Hp1 Hv1 E) Hp2 Hv2).
+  - rewrite (chain_failed_stays vs (Err k) eq_refl). exact Hc.
+  - rewrite (chain_failed_stays vs (Raise e) eq_refl). exact Hc.
+Qed.
+Print Assumptions subst_chain_only_substerr.
+
+Theorem subst_chain_idempotent_at_end :
+  forall vs v s s', wf s = true ->
+  forallb plain (vs ++ [v]) = true -> forallb vwf (vs ++ [v]) = true ->
+  chain s (vs ++ [v]) = Ok s' -> chain s (vs ++ [v; v]) = Ok s'.
+Proof.
+  unfold chain. induction vs as [|u vs IH]; intros v s s' Hwf Hpl Hvw Hs.
+  - cbn [app fold_left bind forallb] in *.
+    apply andb_prop in Hpl. destruct Hpl as [Hp _]. apply andb_prop in Hvw. destruct Hvw as [Hv _].
+    rewrite Hs. cbn [bind]. exact (subst_idempotent s v s' Hwf Hp Hv Hs).
+  - cbn [app fold_left bind forallb] in *.
+    apply andb_prop in Hpl. destruct Hpl as [Hp1 Hp2]. apply andb_prop in Hvw. destruct Hvw as [Hv1 Hv2].
+    destruct (substitute s u) as [s1|k|e] eqn:E.
+    + exact (IH v s1 s' (subst_wf_lemma s Hwf u s1 Hp1 Hv1 E) Hp2 Hv2 Hs).
+    + rewrite (chain_failed_stays (vs ++ [v]) (Err k) eq_refl) in Hs. discriminate Hs.
+    + rewrite (chain_failed_stays (vs ++ [v]) (Raise e) eq_refl) in Hs. discriminate Hs.
+Qed.
+Print Assumptions subst_chain_idempotent_at_end.
